@@ -664,12 +664,35 @@ def r8_roundtrip(L, repo):
                 seen_k.add(k)
                 pick.append((title, data, before, ck))
         pick = pick[:6]
-        for ta, da, _ba, _ka in pick:
+        # ... nor on datagrams it REFUSED before (whatever a refused datagram left behind - in the object or in
+        # module-level lookup state - the next valid one decodes as if it had come first)
+        junk = []
+        if pick:
+            d0 = pick[0][1]
+            hl = 6 if cls == "TxMsg" else 8
+            junk = [("a refused datagram (header + 10 octets)", bytes(d0[:hl]) + bytes(10), None, None),
+                    ("a refused datagram (header + 8 octets)", bytes(d0[:hl]) + bytes(8), None, None),
+                    ("a refused datagram (truncated header)", bytes(d0[:hl - 3]), None, None),
+                    ("a refused datagram (header version 15)", bytes([0xf0 | (d0[0] & 0x0f)]) + bytes(d0[1:]), None, None)]
+        for ta, da, _ba, _ka in pick + junk:
             for tb, db, bb, kb in pick:
                 if ta == tb:
                     continue
                 try:
-                    e2 = decode(ci, da)
+                    e2 = decode(ci, bytes(d0[:0]) if False else da) if _ba is not None else None
+                    if e2 is None:
+                        e2 = Ev(repo, ci.mod, env={}, self_cls=ci)
+                        e2.ignore_calls = ("log.", "logging.")
+                        try:
+                            c0, i0 = repo.find_method(ci, "__init__")
+                            e2.call_func(i0, c0.mod, e2._bindargs(i0, ["<self>"], {}), self_cls=ci, writeback=True)
+                        except (Unknown, Raised, TypeError, KeyError, AttributeError):
+                            pass
+                        try:
+                            decode(ci, da, into=e2)
+                            continue        # (the datagram was not refused after all: not this clause's matter)
+                        except Raised:
+                            pass
                     got = fields_of(decode(ci, db, into=e2), kb)
                 except (Unknown, Raised):
                     continue        # (single decodes are decided above; a sequence that does not fold adds nothing)
